@@ -243,6 +243,9 @@ func (s *Sub) Exhaustive() { s.mu.Lock(); s.exhaustive = true; s.mu.Unlock() }
 
 // Inconclusive records a case that could not be judged (watchdog, checker time-out...).
 func (s *Sub) Inconclusive(what string) {
+	if len(what) > 400 {
+		what = what[:400] + "..."
+	}
 	s.r.mu.Lock()
 	if len(s.r.inconclusive) < 200 {
 		s.r.inconclusive = append(s.r.inconclusive, s.Name+": "+what)
